@@ -20,7 +20,7 @@ RULE = ("case = (document, reference path, operation read|write, result aliasing
         "aliases (part of) the input, or the path does not resolve; distinct by canonical JSON of the case")
 ASSUMPTIONS = ["definite reference paths only ($, $.k, $['k'], $[i], nested, $$ for the context); JSONPath wildcards/filters/slices are not judged",
                "ResultPath on a null raw input is unspecified (skipped)", "contracts are attached by rebinding the functions in state_engine_paths and state_engine"]
-FLOORS = {"evaluations": 20000, "reads_compared": 10000, "writes_compared": 10000, "state_level_compared": 300, "nontrivial": 5000,
+FLOORS = {"catcher_resultpath_cases": 200, "evaluations": 20000, "reads_compared": 10000, "writes_compared": 10000, "state_level_compared": 300, "nontrivial": 5000,
           "contract_evaluations": 20000, "alias_writes": 500, "unresolvable_reads": 1000}
 SHARDS = {"quick": 8, "thorough": 16}
 TECHNIQUE = "runtime contracts (icontract) + reference-evaluator monitor on the real path functions and on one-state executions"
@@ -240,6 +240,45 @@ def check_state(ctx, doc, fields, k):
         ctx.violation("state-level-path-law", dict(case, expected=exp, engine=got), mech)
 
 
+def check_catch_state(ctx, doc, kind, fields, k):
+    """The Catcher's ResultPath (and a fan-out's own ResultPath) is applied to the RAW input of the state that failed, whatever the state
+    inside the fan-out was working on when it failed."""
+    FN = "arn:aws:rpcmessage:local::function:"
+    inner_fail = {"StartAt": "I1", "States": {"I1": {"Type": "Pass", "Result": {"inner": "doc"}, "Next": "I2"}, "I2": {"Type": "Fail", "Error": "Inner.Failed", "Cause": "c"}}}
+    inner_ok = {"StartAt": "J1", "States": {"J1": {"Type": "Pass", "Result": [1, 2], "End": True}}}
+    if kind == "Task":
+        st = {"Type": "Task", "Resource": FN + "bad"}
+    elif kind == "Parallel":
+        st = {"Type": "Parallel", "Branches": [inner_ok, inner_fail]}
+    elif kind == "Map":
+        st = {"Type": "Map", "ItemsPath": "$.mapitems", "ItemProcessor": inner_fail}
+        doc = dict(doc, mapitems=[5, {"x": 1}])
+    else:       # a nested fan-out failing inside a branch of the caught one
+        st = {"Type": "Parallel", "Branches": [{"StartAt": "N", "States": {"N": {"Type": "Map", "ItemsPath": "$.mapitems", "ItemProcessor": inner_fail, "End": True}}}]}
+        doc = dict(doc, mapitems=["s"])
+    st.update(fields)
+    st["Catch"] = [dict({"ErrorEquals": ["States.ALL"], "Next": "H"}, **({"ResultPath": fields["CatchResultPath"]} if "CatchResultPath" in fields else {}))]
+    st.pop("CatchResultPath", None)
+    st["Next"] = "H"
+    asl = {"StartAt": "S", "States": {"S": st, "H": {"Type": "Pass", "Parameters": {"seen.$": "$"}, "End": True}}}
+    tasks = lambda fn, p: {"errorType": "Task.Bad", "errorMessage": "m"}
+    from lsfverif.gen.machines import task_oracle
+    try:
+        o = R.Interp(asl, task_oracle({"bad": ["fail", "Task.Bad"]}), exec_id="arn:aws:states:local:0123456789:execution:m:e", exec_name="e").run(copy.deepcopy(doc))
+    except R.Unspecified:
+        ctx.count("unspecified")
+        return
+    exp = ("SUCCEEDED", o.output) if o.status == "SUCCEEDED" else ("FAILED", o.error)
+    res = mini.run(asl, copy.deepcopy(doc), tasks=tasks)
+    got = ("SUCCEEDED", res["output"]) if res["status"] == "SUCCEEDED" else (res["status"], res["error"])
+    ctx.evaluation(); ctx.count("state_level_compared"); ctx.count("catcher_resultpath_cases")
+    case = dict(op="catch-state", doc=doc, state=st)
+    ctx.nontrivial(case)
+    ok = got[0] == exp[0] and (R.matches(exp[1], got[1]) if got[0] == "SUCCEEDED" else got[1] == exp[1])
+    if not ok:
+        ctx.violation("state-level-path-law", dict(case, expected=exp, engine=got), "inband-error-member" if (o.facts.get("error_member_values") and got[0] == "FAILED") else None)
+
+
 def run(ctx):
     import asl_workflow_engine.state_engine_paths as P
     contracts.install()
@@ -328,6 +367,24 @@ def run(ctx):
         if rng.random() < 0.3:
             fields["OutputPath"] = None if rng.random() < 0.15 else spell(list(rng.choice(ex))[:1], rng)
         check_state(ctx, doc, fields, k)
+    for k in range(ctx.pick(400, 20000)):
+        i += 1
+        if not ctx.mine(i):
+            continue
+        rng = ctx.rng("catch", k)
+        doc = rand_doc(rng, 2, KEYS + ["k1"])
+        if not isinstance(doc, dict):
+            doc = {"v": doc}
+        ex = [t for t in existing_token_paths(doc) if t]
+        fields = {}
+        c = rng.random()
+        if c < 0.75:
+            fields["CatchResultPath"] = None if c < 0.05 else "$" if c < 0.1 else spell(list(rng.choice(ex or [["e"]])) + ([rng.choice(["err", "a"])] if rng.random() < 0.7 else []), rng) if ex else "$.err"
+        if rng.random() < 0.3:
+            fields["ResultPath"] = spell(list(rng.choice(ex or [["r"]])) + ["r"], rng)
+        if rng.random() < 0.25 and ex:
+            fields["InputPath"] = spell(list(rng.choice(ex)), rng)
+        check_catch_state(ctx, doc, ["Task", "Parallel", "Map", "Nested"][k % 4], fields, k)
     # contracts: what they observed
     for v in contracts.drain():
         mech = None
